@@ -34,8 +34,8 @@ RULE = ("schemas from gen/schema.py (+ an interface/implementer/union cluster) b
         "or resolver; distinct histories with >=1 registration between two validate() calls")
 ASSUMPTIONS = [
     "schemas are created through Schema()/build_schema (validate_schema's documented precondition): type names are unique, references are closed",
-    "model follows the tree WITH proposed_fixes/C13-S4-S6.patch; on the unfixed tree the two labelled injections "
-    "`implements_object` (S4) and `bad_name_input_field` (S6) are reported as property failures",
+    "model follows the tree WITH proposed_fixes/C13-S4-S6.patch; on the unfixed tree the labelled injections "
+    "`implements_object` (S4), `bad_name_input_field` (S6) and names with a trailing newline (S7) are reported as property failures",
     "`field.resolver = f` / `schema.default_resolver = f` assigned directly are outside the statement (not re-validated); not generated in histories",
     "_replace_types_and_directives is exercised with single-entry maps only (multi-entry: busted_cache overwritten, ledger T3, C14)",
 ]
@@ -759,10 +759,10 @@ def check_schema(ctx, batch, schema, labels, how, info, desc=None):
     else:
         missing = expected - rules
         if verdict == "valid":
-            ctx.fail("violation-accepted:%s" % sig_of([l for l in labels if l[1]]),
+            ctx.fail("violation-accepted:%s" % sig_of(sorted(set(l for l in labels if l[1]))),
                      "a schema breaking an implemented rule is accepted", detail)
         elif missing:
-            ctx.fail("violation-not-reported:%s:missing=%s" % (sig_of([l for l in labels if l[1]]), "+".join(sorted(missing))),
+            ctx.fail("violation-not-reported:%s" % sig_of([l for l in labels if l[1] in missing]),
                      "rejected, but an injected violation has no error attributable to its rule (not all reported together)", detail)
     if any(r.startswith("?") for r in rules):
         ctx.fail("corr:unattributed-message", "an error message matches no extracted format string", detail, kind="correspondence")
@@ -1036,7 +1036,7 @@ def stream_subtype_and_names(ctx, batch):
     for c, r in zip(cands, realn):
         if r:
             ctx.nontrivial(("name", c))
-        if r != spec_name(c) and not c.endswith("\n"):
+        if r != spec_name(c):
             ctx.fail("name-rule:%s" % ("accepts-bad" if r else "rejects-good"), "_is_valid_name disagrees with the Name grammar",
                      {"how": "name", "name": [ord(x) for x in c], "real": r})
 
